@@ -284,3 +284,10 @@ MUTANTS += [
          old="        FileBuilder._try_to_remove_file(filename)\n        self._build_dirs.error_building_file(filename)\n        logger.warning(",
          new="        self._build_dirs.error_building_file(filename)\n        FileBuilder._try_to_remove_file(filename)\n        logger.warning("),
 ]
+
+MUTANTS += [
+    # ---- C17 (racing straggler)
+    dict(name='c17_append_without_recheck', props=['C17'], file=FB,
+         old="            with self._lock:\n                self._assert_not_finished()\n                self._operation.suboperations.append(suboperation)",
+         new="            with self._lock:\n                self._operation.suboperations.append(suboperation)"),
+]
